@@ -42,4 +42,25 @@ with open(os.path.join(V, 'benign', 'INDEX.md'), 'w') as f:
     f.write('| id | anchored in | kind | refactor | verdict now | first contact |\n|---|---|---|---|---|---|\n')
     for r in rows:
         f.write('| %s | %s | %s | %s | %s | %s |\n' % r)
+
+# DESIGN.md section 10.4: rule -> seeded changes on which it fires
+import re
+by_rule = {}
+def _order(i):
+    m = re.match(r'C(\d+)(?:-r(\d+))?-(\d+)', i)
+    return (int(m.group(2) or 1), int(m.group(1)), int(m.group(3))) if m else (9, 0, 0)
+for d in sorted(os.listdir(os.path.join(V, 'seeded')), key=_order):
+    mp = os.path.join(V, 'seeded', d, 'meta.json')
+    if os.path.isfile(mp):
+        keys = (json.load(open(mp)).get('detection', {}).get('new_violation_keys') or {})
+        for r in sorted({k.split(':')[0] for v in keys.values() for k in v}):
+            by_rule.setdefault(r, []).append(d)
+dp = os.path.join(V, 'DESIGN.md')
+txt = open(dp).read()
+head = '| rule | seeded changes on which it fires |\n|---|---|\n'
+i = txt.find(head)
+if i >= 0:
+    j = txt.find('\n\n', i)
+    table = head + ''.join('| %s | %s |\n' % (r, ', '.join(v)) for r, v in sorted(by_rule.items()))
+    open(dp, 'w').write(txt[:i] + table.rstrip('\n') + txt[j:])
 print('ok')
